@@ -1049,7 +1049,7 @@ func unparsePipelinedCall(call b6.CallExpression, top bool) (string, bool) {
 		return "", false
 	}
 	var rhs string
-	if f, pipelined := call.Function.AnyExpression.(b6.CallExpression); pipelined && f.Pipelined && len(call.Args) == 1 {
+	if len(call.Args) == 1 && unparsesAsPipeline(call.Function) {
 		// a | (b | c) isn't a | b | c: pipelines group to the left
 		rhs, ok = unparseExpression(call.Function, false)
 	} else {
@@ -1063,6 +1063,15 @@ func unparsePipelinedCall(call b6.CallExpression, top bool) (string, bool) {
 	} else {
 		return "(" + lhs + " | " + rhs + ")", true
 	}
+}
+
+// unparsesAsPipeline returns true if e is written as lhs | rhs at the top
+// level. A call without arguments is written as just its function there.
+func unparsesAsPipeline(e b6.Expression) bool {
+	if call, ok := e.AnyExpression.(b6.CallExpression); ok {
+		return call.Pipelined || (len(call.Args) == 0 && unparsesAsPipeline(call.Function))
+	}
+	return false
 }
 
 func unparseCall(call b6.CallExpression, top bool) (string, bool) {
